@@ -398,6 +398,12 @@ def count(  # noqa: C901
             )
             already_seen.add(new_candidate.structural_hash())
 
+    if negate:
+        # We could not construct a tree with the alternative number of occurrences
+        # chosen above. That does not make `count(in_tree, needle, num)` false: in_tree
+        # can still reach the original number. The formula is not ready yet.
+        return SemPredEvalResult(None)
+
     return SemPredEvalResult(False)
 
 
